@@ -124,15 +124,16 @@ PROPS = {
     },
     "C05": {
         "clauses": [guards("modulus", "exponent"), r3.check_parity_dispatch, r3.check_residue_complement, r3.check_division_sites, r3.check_add2_carry_used, both(r3.check_underflow_asserts), r1.check_biguint_normal_form, r5check.check_modular, count_ok("biguint/monty.rs", "biguint/power.rs", "bigint/power.rs", "biguint.rs", "bigint.rs", floor=100), both(r11.check_montgomery_operand_lengths), both(r11.check_montgomery_result_length), selftest("R2-count-narrowed")],
-        "not_decided": "Montgomery arithmetic (montgomery, inv_mod_alt, the window walk), plain_modpow's squaring schedule, extended Euclid; padding of the base to the "
-        "modulus length",
+        "not_decided": "Montgomery arithmetic (montgomery's inner loops, inv_mod_alt, the window walk), plain_modpow's squaring schedule, extended Euclid",
         "level_text": "Decides: zero-modulus and negative-exponent guards exist in release builds and dominate the computation; the Montgomery path is entered only behind "
-        "is_odd(modulus); every modulus-minus-residue complement in modpow/modinv/mod_floor is guarded by residue != 0 (the clause that exposed the modinv "
-        "defect for |modulus| = 1); reductions divide by the guarded modulus; BigInt::modpow/modinv place the result in the documented interval in every sign "
-        "case given an exact unsigned modpow/modinv (abstract interpretation); monty_modpow's result is normalised before it is compared or returned; no "
-        "carry/borrow is dropped and no digit count is truncated in the modular code.",
-        "technique": "CFG dominance of guards in dev and release, parity-dispatch and residue-complement rules over MIR; abstract interpretation of the BigInt wrappers over "
-        "the sign domain; must-pass-through canonicalisation analysis",
+        "is_odd(modulus); every BigUint handed to montgomery in monty_modpow has exactly len(modulus) digits on every path (length typestate: reduce-then-pad "
+        "for long bases, pad for short ones; montgomery returns n digits); every modulus-minus-residue complement in modpow/modinv/mod_floor is guarded by "
+        "residue != 0 (the clause that exposed the modinv defect for |modulus| = 1); reductions divide by the guarded modulus; BigInt::modpow/modinv "
+        "(trait-free and inherent forms) place the result in the documented interval in every sign case given an exact unsigned modpow/modinv (abstract "
+        "interpretation); monty_modpow's result is normalised before it is compared or returned; no carry/borrow is dropped and no digit count is truncated in "
+        "the modular code.",
+        "technique": "CFG dominance of guards in dev and release, parity-dispatch and residue-complement rules over MIR; forward length-typestate dataflow over "
+        "monty_modpow; abstract interpretation of the BigInt wrappers over the sign domain; must-pass-through canonicalisation analysis",
     },
     "C06": {
         "clauses": [both(r3.check_radix), r3.check_parse_validation_order, r7.check_bases, r7.check_formatters, r9.check_sign_readers, r1.check_biguint_normal_form, count_ok("biguint/convert.rs", "bigint/convert.rs", floor=100), selftest("R2-count-narrowed")],
@@ -175,7 +176,8 @@ PROPS = {
         "(|a| compared with 2^63 / 2^127 read from MIR), negative -> None for unsigned targets, zero -> Some(0); BigUint::from_iN rejects negatives; "
         "TryFrom<BigInt> for BigUint and all 24 by-value TryFrom impls for primitives hand the original value back in the error; BigUint::from_f64 rejects "
         "NaN/infinities before decoding and negative values after; no conversion casts its primitive input to a narrower integer type or through a saturating "
-        "float cast.",
+        "float cast; no conversion to a primitive T goes through to_X() for an X that cannot hold every value of T; no bit count is truncated before it is "
+        "range-checked.",
         "technique": "abstract interpretation over the sign domain (R5) + MIR def-use checks of the error closures + guard dominance",
     },
     "C09": {
@@ -203,9 +205,10 @@ PROPS = {
         "clauses": [guards("root"), r6.check_cfg_taint, r3.check_division_sites, r5check.check_roots, r10.check_fixpoint_invariant, count_ok("biguint.rs", "bigint.rs", floor=100), r1.check_biguint_normal_form, selftest("R2-count-narrowed"), r3.check_float_guess_guard],
         "not_decided": "Newton convergence (assumed: fixpoint reaches the floor root from any guess), the u64 fast path, float guesses",
         "level_text": "Decides: n > 0 (zeroth root) and the imaginary-root assertions (negative with even degree, sqrt of a negative) are mandatory in release builds, test "
-        "the right operands and dominate every return; BigInt roots carry the operand's sign; the std/no_std difference in nth_root/sqrt/cbrt is confined to "
-        "the initial guess passed to fixpoint (cfg-taint over the two builds' MIR), and the Newton driver recomputes the candidate after every update of the "
-        "iterate, so the results cannot depend on the availability of floats given Newton convergence.",
+        "the right operands and dominate every return; BigInt roots (trait and inherent methods) carry the operand's sign; the std/no_std difference in "
+        "nth_root/sqrt/cbrt is confined to the initial guess passed to fixpoint (cfg-taint over the two builds' MIR); the std-only guess unwraps from_f64 only "
+        "behind is_finite() (to_f64 answers Some(INFINITY) for large values); the Newton driver recomputes the candidate after every update of the iterate - so "
+        "the results cannot depend on the availability of floats given Newton convergence.",
         "technique": T_R3 + "; cross-configuration MIR diff with forward taint (cfg-taint)",
     },
     "C12": {
@@ -218,12 +221,14 @@ PROPS = {
     },
     "C13": {
         "clauses": [r3.check_division_sites, r3.check_gcd_zero_cases, r5check.check_helpers, count_ok("biguint.rs", "bigint.rs", floor=100), r1.check_biguint_normal_form, selftest("R2-count-narrowed")],
-        "not_decided": "Stein's algorithm (common power of two, subtraction loop), extended_gcd (num-integer), arithmetic of the multiple-of helpers",
+        "not_decided": "Stein's algorithm (common power of two, subtraction loop), num-integer's generic extended_gcd loop itself, arithmetic of the multiple-of helpers",
         "level_text": "Decides: gcd returns the other operand when one is zero before Stein's loop; lcm / gcd_lcm / extended_gcd_lcm divide only by a gcd shown non-zero by a "
-        "dominating test (own zero test, or the joint zero test of exactly the gcd's two arguments); is_multiple_of takes the remainder only behind other != 0 "
-        "and answers self == 0 otherwise; the BigInt wrappers (gcd, lcm, is_multiple_of, divides, is_even/is_odd, next/prev multiple) take magnitudes and signs "
-        "as defined.",
-        "technique": T_R3,
+        "dominating test (own zero test, or the joint zero test of exactly the gcd's two arguments); BigInt::extended_gcd_lcm returns (g, x, y, l) with a*x + "
+        "b*y = g modulo the Bezout relation of the extended_gcd it calls, g >= 0, g = 0 exactly for a = b = 0 and l*g = |a*b| modulo the exactness of divisions "
+        "by g, in all nine sign cases; is_multiple_of takes the remainder only behind other != 0 and answers self == 0 otherwise; the BigInt wrappers (gcd, "
+        "lcm, is_multiple_of, divides, is_even/is_odd, next/prev multiple, inc, dec) take magnitudes and signs as defined.",
+        "technique": "CFG dominance / divisor provenance over MIR; abstract interpretation over the sign domain with an uninterpreted extended_gcd and polynomial identity "
+        "checking modulo its Bezout relation",
     },
     "C14": {
         "clauses": [
@@ -262,19 +267,24 @@ PROPS = {
         "clauses": [r6.check_matrix, r6.check_feature_stability, r6.check_cfg_taint, r3.check_inventory, guards(), both(r3.check_underflow_asserts), both(r3.check_radix), both(r3.check_div_guards), r3.check_operand_overflow, selftest("R3c-operand-overflow"), r3.check_float_guess_guard],
         "not_decided": "equality of results where it rests on arithmetic (Newton fixpoint independent of the guess; float helper agreement; absence of overflow so that "
         "overflow-check and wrapping builds agree); the 32-bit-digit variants of the code are analysed through an i686 build (-Zbuild-std): one configuration in the quick tier, all in the thorough tier",
-        "level_text": "Decides: all ten documented feature configurations type-check; enabling serde/rand/quickcheck/arbitrary changes the canonical MIR of no function that "
-        "exists without them (std and no_std); every function whose code differs between std and no_std lets configuration-dependent values reach only "
-        "capacity estimates or the Newton initial guess, never its result; explicit panic sites outside debug-only code are the same in dev and release "
-        "and debug-only code is effect-free.",
+        "level_text": "Decides: all ten documented feature configurations type-check (and the i686 / 32-bit-digit build does); enabling serde/rand/quickcheck/arbitrary "
+        "changes the canonical MIR of no function that exists without them (std and no_std); every function whose code differs between std and no_std lets "
+        "configuration-dependent values reach only capacity estimates or the Newton initial guess, never its result or a branch that decides it; the std-only "
+        "float guess is guarded by is_finite(); explicit panic sites outside debug-only code are the same in dev and release, mandatory guards are not "
+        "debug-only, debug-only code is effect-free, and no exported function does overflow-checked arithmetic directly on an unconstrained caller-supplied "
+        "scalar (debug panic vs release wrap).",
         "technique": "type checking of the 10-configuration matrix; canonical MIR fingerprints across 4 fact configurations; cfg-taint (cross-config line diff + forward dataflow); dev-vs-release inventory",
     },
     "C17": {
         "clauses": [r7.check_serde_tables, r6.check_feature_stability, r1.check_biguint_normal_form, r7.check_serde_hint_confined, r7.check_serde_declared_length],
-        "not_decided": "the u64 -> (lo, hi) split arithmetic and pair re-join",
+        "not_decided": "the u64 -> (lo, hi) split arithmetic of the emitted elements and the pair re-join in the visitor",
         "level_text": "Decides: Sign serialises as the i8 -1/0/1 and deserialises by the inverse table with an Err arm for every other byte (switch targets and promoted "
-        "constants read from MIR); BigInt <-> the pair (sign, magnitude) in this order, rebuilt through the canonicalising from_biguint; pre-allocation from "
-        "size hints is capped; the declared sequence length and the conditional emission of the last high half test the same value; enabling serde changes no other function.",
-        "technique": "MIR switch-table and constant extraction, argument provenance; cross-configuration MIR fingerprints",
+        "constants read from MIR); BigInt <-> the pair (sign, magnitude) in this order, rebuilt through the canonicalising from_biguint; deserialised BigUint "
+        "digits pass biguint_from_vec; the sequence's size hint flows only into Vec::with_capacity (capped) and never into the value or the loop exit (forward "
+        "taint with control dependence); the length announced to serialize_seq equals the number of elements emitted for every digit count and top-digit "
+        "pattern (both evaluated from MIR); enabling serde changes no other function.",
+        "technique": "MIR switch-table and constant extraction, argument provenance; forward taint with control dependence; evaluation of integer expressions read from MIR; "
+        "must-pass-through canonicalisation; cross-configuration MIR fingerprints",
     },
     "C19": {
         "clauses": [r5check.check_helpers, r5check.check_constructors, r5check.check_arithmetic({"Mul"}, 15), r5check.check_conversions],
